@@ -564,7 +564,10 @@ theorem splitSepNoClampT_fst (s p : Bytes) (hp : p ≠ []) (n : Nat) :
   simp only [splitSepNoClampT, bind_fst, pure_fst]
   rw [splitLoopT_fst, List.nil_append, splitGo_eq_splitOn s p hp]
 
-/-- … at a cost of at least the magnitude of the count: no bound in the size of the string exists for it -/
+/-- … at a cost of at least the magnitude of the count: no bound in the size of the string exists for it.
+    (The witness here is the EMPTY subject, which Go answers at string.go:933 before the mutated line.  With the
+    subject "a" and counts `n ≥ 1`, which do reach string.go:956: `C09E.splitSepNoClampT_unbounded_reachable`.  The
+    other clamp of `splitCount`, string.go:938, whose deletion CHANGES the result: `C09E.split_empty_clamp_matters`.) -/
 theorem splitSepNoClampT_unbounded (p : Bytes) :
     ¬ ∃ c : Nat, ∀ (n : Nat) (s : Bytes), (splitSepNoClampT s p n).2 ≤ c * (s.length + 1) := by
   intro ⟨c, h⟩
